@@ -232,17 +232,25 @@ let handle_ucipos line args obs =
            st := (match cmd_position zt s l with Running s' -> Some s' | Exited -> None)
          else if str_lower_is cmd "ucinewgame" then st := Some (cmd_ucinewgame s));
       (* model observation *)
+      let obs_of s =
+        let e = s.d_eng in
+        let h = e.e_heap and b = e.e_board in
+        Printf.sprintf "ALIVE %s %d %d %d %d %d %d" (codes_of_str (eng_position e)) (int_of_z b.b_ply)
+          (int_of_z (rep_get b.b_reps (b_hash h b))) (int_of_n b.b_result.outcome) (Dispatch2.reason_code b.b_result.rreason)
+          (int_of_n (b_noprogress h b)) (int_of_z b.b_moves) in
       let m = (match !st with
           | None -> "EXIT"
-          | Some s ->
-            let e = s.d_eng in
-            let h = e.e_heap and b = e.e_board in
-            Printf.sprintf "ALIVE %s %d %d %d %d %d %d" (codes_of_str (eng_position e)) (int_of_z b.b_ply)
-              (int_of_z (rep_get b.b_reps (b_hash h b))) (int_of_n b.b_result.outcome) (Dispatch2.reason_code b.b_result.rreason)
-              (int_of_n (b_noprogress h b)) (int_of_z b.b_moves)) in
+          | Some s -> obs_of s) in
       if m <> o then report_mismatch line (Printf.sprintf "line#%d: %s" i m);
       (* specification: the game the line describes, from the line alone *)
       if str_lower_is cmd "position" then begin
+        (* the same line set up from scratch on a fresh engine: everything observed, the recorded result included *)
+        (match cmd_position zt { d_eng = empty_engine (); d_last = [] } l with
+         | Running s0 ->
+           let m0 = obs_of s0 in
+           if m0 <> o && o <> "EXIT" then
+             report_spec ~key:"prop=C10" line (Printf.sprintf "line#%d: engine state [%s] differs from the state after the same command on a fresh engine [%s] (fen ply repetitions outcome reason clock moves)" i o m0)
+         | Exited -> ());
         match setup l with
         | Some g ->
           bump "ucipos/position-line";
